@@ -617,6 +617,19 @@ func genDB3(t *rapid.T) DB3Case {
 			}
 		}
 	}
+	// one case in five carries "twins": two packages that each define a TwinInner of their own and a TwinUser that names
+	// it without a package - the same words resolve to different files depending on who says them
+	twin := rapid.IntRange(0, 4).Draw(t, "twins") == 0
+	if twin {
+		arr := rapid.SampledFrom([]string{"", "[]", "[2]"}).Draw(t, "twin-array")
+		pa, pb := "pkg_a", rapid.SampledFrom([]string{"pkg_b", "std_msgs"}).Draw(t, "twin-pkg")
+		c.Defs = append(c.Defs,
+			MsgDef{Pkg: pa, Name: "TwinUser", Lines: []string{fmt.Sprintf("TwinInner%s f0_of_def%d", arr, nd), fmt.Sprintf("uint8 f1_of_def%d", nd)}, Deps: []int{nd + 1}},
+			MsgDef{Pkg: pa, Name: "TwinInner", Lines: []string{fmt.Sprintf("float64 f0_of_def%d", nd+1)}},
+			MsgDef{Pkg: pb, Name: "TwinUser", Lines: []string{fmt.Sprintf("TwinInner f0_of_def%d", nd+2)}, Deps: []int{nd + 3}, NoNL: rapid.Bool().Draw(t, "twin-nonl")},
+			MsgDef{Pkg: pb, Name: "TwinInner", Lines: []string{fmt.Sprintf("string f0_of_def%d", nd+3), fmt.Sprintf("int32 f1_of_def%d", nd+3)}})
+		nd += 4
+	}
 	nt := rapid.IntRange(1, 5).Draw(t, "n-topics")
 	ids := rapid.Permutation([]uint16{1, 2, 3, 4, 9, 255, 65535}).Draw(t, "topic-ids")
 	for i := 0; i < nt; i++ {
@@ -632,6 +645,14 @@ func genDB3(t *rapid.T) DB3Case {
 			tp.QoS = &q
 		}
 		c.Topics = append(c.Topics, tp)
+	}
+	if twin {
+		// both users are recorded (in either order), so one conversion has to resolve both
+		first := rapid.IntRange(0, 1).Draw(t, "twin-order")
+		for i := 0; i < 2 && i < nt; i++ {
+			d := c.Defs[nd-4+2*((i+first)%2)]
+			c.Topics[i].Type = d.Pkg + "/msg/" + d.Name
+		}
 	}
 	nm := rapid.IntRange(0, 30).Draw(t, "n-msgs")
 	for i := 0; i < nm; i++ {
